@@ -76,6 +76,7 @@ func concRound(c *ConcCase, o *vkit.Outcome, round int) {
 	var start, done sync.WaitGroup
 	var failed atomic.Value
 	var busy atomic.Int64
+	lastSaved := make([]atomic.Value, c.Writers) // per writer: the offset of its latest SaveOffset that returned nil
 	start.Add(1)
 	for w := 0; w < c.Writers; w++ {
 		done.Add(1)
@@ -125,6 +126,7 @@ func concRound(c *ConcCase, o *vkit.Outcome, round int) {
 						failed.CompareAndSwap(nil, fmt.Sprintf("writer %d: SaveOffset(%q) failed: %v", w, off, serr))
 						return
 					}
+					lastSaved[w].Store(off)
 				}
 			}
 		}(w)
@@ -170,10 +172,50 @@ func concRound(c *ConcCase, o *vkit.Outcome, round int) {
 			runtime.Gosched()
 		}
 	}()
+	// the loader: reads the writers' saved positions while they are being
+	// replaced.  A position that was saved before the call started is never
+	// un-saved: LoadOffset returns it or a later one, never "oldest"
+	loaderDone := make(chan struct{})
+	var loads atomic.Int64
+	go func() {
+		defer close(loaderDone)
+		ss, ok := st.(eventbus.SubscriptionStore)
+		if !ok {
+			return
+		}
+		start.Wait()
+		for w := 0; !writersDone.Load(); w = (w + 1) % c.Writers {
+			before, _ := lastSaved[w].Load().(eventbus.Offset)
+			id := fmt.Sprintf("writer-%d", w)
+			got, lerr := ss.LoadOffset(ctx, id)
+			if lerr != nil {
+				if isBusy(lerr) {
+					busy.Add(1)
+				} else {
+					failed.CompareAndSwap(nil, fmt.Sprintf("LoadOffset(%q) during the writers' saves failed: %v", id, lerr))
+					return
+				}
+				runtime.Gosched()
+				continue
+			}
+			if before != "" {
+				loads.Add(1)
+				if got == eventbus.OffsetOldest || offsetLess(c.Store, got, before) {
+					failed.CompareAndSwap(nil, fmt.Sprintf("SaveOffset(%q, %q) had returned nil; a LoadOffset(%q) called afterwards, while the same goroutine went on saving later offsets, returned %q: a saved position disappears (or moves back) while it is being replaced", id, before, id, got))
+					return
+				}
+			}
+			runtime.Gosched()
+		}
+	}()
 	start.Done()
 	done.Wait()
 	writersDone.Store(true)
 	<-readerDone
+	<-loaderDone
+	if loads.Load() > 0 {
+		o.Class("saved_positions_loaded_while_being_replaced")
+	}
 	o.Exclude("sqlite_busy_or_locked_refusals_retried", int(busy.Load()))
 	if m, _ := failed.Load().(string); m != "" {
 		o.Failf("", "round %d: %s", round, m)
@@ -285,4 +327,17 @@ func concRound(c *ConcCase, o *vkit.Outcome, round int) {
 func isBusy(err error) bool {
 	m := err.Error()
 	return strings.Contains(m, "SQLITE_BUSY") || strings.Contains(m, "SQLITE_LOCKED") || strings.Contains(m, "database is locked") || strings.Contains(m, "database table is locked")
+}
+
+// offsetLess: a precedes b in the store's order (SQLite offsets are decimal
+// numbers, the memory store's are fixed-width strings).
+func offsetLess(store string, a, b eventbus.Offset) bool {
+	if store == "sqlite" || store == "sqlitemem" {
+		x, errx := strconv.ParseInt(string(a), 10, 64)
+		y, erry := strconv.ParseInt(string(b), 10, 64)
+		if errx == nil && erry == nil {
+			return x < y
+		}
+	}
+	return a < b
 }
